@@ -44,6 +44,7 @@ def run(ck, ctx):
                      "stamp its peers already hold)")
     ck.nd("that the resulting stamp supersedes on every replica additionally needs C07 (merge algebra)")
     ck.nd("per-field stamps inside hash values larger than the outer stamp (value-level)")
+    ck.rule("R08.11", COVER_TEXT)
     ck.rule("R08.10", "the clocks are rebuilt from everything that was persisted: the recovered checkpoint and every recovered delta reach the shard "
                       "actors as the recovery manager returned them (no picking, collapsing or reordering on the way), through the merging ingest "
                       "that advances the clock past each of them - a delta dropped here can be the one that carries a shard's newest stamp "
@@ -69,6 +70,7 @@ def run(ck, ctx):
         from . import c11 as _c11
         from .core import Alias as _Alias
         _c11._r113(_Alias(ck, "R11.3", "R08.10"), prog, cfg)
+        r0811(ck, prog, cfg, "R08.11")
 
 
 def _is_time_place(pl):
@@ -582,3 +584,38 @@ def _r088(ck, prog, cfg):
                  "a delta is handed to gossip (line %s) before it is written to the WAL (line %s): peers can hold a stamp that a crash makes "
                  "this node forget, so a write acknowledged after the restart can be stamped at or below it" % (qt["ln"], later[0]["ln"] if later else "?"),
                  fn.where(qt["ln"]), detail="queue_deltas only after the WAL write")
+
+
+# ------------------------------------------------------------------------------------------------
+COVER_TEXT = ("a checkpoint covers exactly what its snapshot saw: the `last_segment_id` that CheckpointManager::create_checkpoint writes into the "
+              "checkpoint and reports back (recovery skips every segment up to it) is the id its caller passed in together with the state - "
+              "never a value re-read from the manifest at write time: a segment flushed between the snapshot and the write holds stamps the "
+              "snapshot lacks, and declaring it covered makes recovery rebuild the clocks without them")
+
+
+def r0811(ck, prog, cfg, rid):
+    fs = [f for f in prog.lib_fns() if re.search(r"CheckpointManager::<.*>::create_checkpoint::\{closure#0\}$", f.id)]
+    if not fs:
+        ck.anchor_lost(rid, "CheckpointManager::create_checkpoint not found")
+        return
+    n = 0
+    for f in fs:
+        cap = {x["n"] for x in f.names if x["pl"].get("l") == 1 and x["pl"].get("p")}       # captured parameters of the async fn
+        sinks = []
+        for b, t in f.calls():
+            if is_callee(t, r"CheckpointWriter::write$") and len(t["args"]) >= 4:
+                sinks.append(("CheckpointWriter::write", t["args"][3], t["ln"]))
+        adt = prog.adts.get("streaming::checkpoint::CheckpointResult")
+        idx = [i for i, x in enumerate(adt["variants"][0]["fields"]) if x["n"] == "last_segment_id"] if adt else []
+        for b, i, st in f.stmts():
+            rv = st["rv"]
+            if rv["k"] == "agg" and str(rv.get("n", "")).endswith("checkpoint::CheckpointResult") and idx and len(rv.get("ops", [])) > idx[0]:
+                sinks.append(("CheckpointResult.last_segment_id", rv["ops"][idx[0]], st["ln"]))
+        for k, (what, o, ln) in enumerate(sinks):
+            n += 1
+            s_ = src_of_operand(f, o)
+            ok = s_.kind == "path" and s_.root == "last_segment_id" and "last_segment_id" in cap and not s_.fields
+            ck.check(ok, rid, "create_checkpoint:%s%s" % (what, _tag(cfg)),
+                     "create_checkpoint records a covered range (%s) that is not the `last_segment_id` its caller passed in with the snapshot (%s)"
+                     % (what, s_.path()), f.where(ln), detail="the parameter itself")
+    ck.floor(rid + _tag(cfg), n, 2)
